@@ -144,3 +144,15 @@ package cache
 //@   trusted
 //@   requires c != nil
 //@   modifies nothing
+
+// otter's deletion listener (installed by NewMemoryCache): an entry that leaves the cache - evicted, expired or
+// replaced - is released, exactly that entry, exactly once
+//@ closure NewMemoryCache$2
+//@   props C20 C07
+//@   requires value != nil
+//@   ghost nRel int = 0
+//@   oncall releaseEntry: nRel = nRel + 1
+//@   modifies *
+//@   callsite releaseEntry: [C20,C07:the-entry-that-left-the-cache] arg0 == value
+//@   ensures [C20:released-once] nRel == 1
+
